@@ -606,10 +606,16 @@ class Visitor:
 
             if name == "__all__":
                 with suppress(AttributeError):
-                    parent.exports = [
-                        name if isinstance(name, str) else ExprName(name.name, parent=name.parent)
-                        for name in safe_get__all__(node, self.current)  # type: ignore[arg-type]
-                    ]
+                    exports: list[str | ExprName] = []
+                    for export in safe_get__all__(node, self.current):  # type: ignore[arg-type]
+                        if isinstance(export, str):
+                            exports.append(export)
+                        elif export.name == "__all__" and export.parent is parent:
+                            # `__all__ = __all__ + [...]`: the module's own, current value.
+                            exports.extend(parent.exports or ())
+                        else:
+                            exports.append(ExprName(export.name, parent=export.parent))
+                    parent.exports = exports
             self.extensions.call("on_instance", node=node, obj=attribute, agent=self)
             self.extensions.call("on_attribute_instance", node=node, attr=attribute, agent=self)
 
